@@ -2,7 +2,7 @@
    Nothing but statements closed by [exact] and Print Assumptions. [K], [V], the comparator and the zero values
    are arbitrary; the comparator laws are a premise. [run step s ops] folds a container's step function over
    an operation list and collects the result of every call. *)
-From VF Require Import Common.Base C01.Order C01.SortedMap C01.SpecProofs C01.BinTree C01.RB C01.AVL C01.BTree
+From VF Require Import Common.Base C01.Order C01.CmpSel C01.SortedMap C01.SpecProofs C01.BinTree C01.RB C01.AVL C01.BTree
   C01.Containers C01.RBProofs C01.AVLRefine C01.ContainersProofs C01.BidiProofs C01.BTProofs.
 Local Open Scope Z_scope.
 
@@ -73,6 +73,13 @@ Proof. intros K V cmp O. exact (sm_reput_present O). Qed.
 Theorem C01_int_comparator_laws : CmpLaws zcmp.
 Proof. exact zcmp_laws. Qed.
 
+(* every comparator shape the correspondence run builds real containers with (a-b, b-a, scaled, clamped, ...)
+   satisfies the premise, so each evaluated case is an instance of the theorems above; all of them separate keys *)
+Theorem C01_comparator_shapes_laws : forall c, CmpLaws (zcmp_of c).
+Proof. exact zcmp_of_laws. Qed.
+Theorem C01_comparator_shapes_separate : forall c a b, zcmp_of c a b = 0 -> a = b.
+Proof. exact zcmp_of_separates. Qed.
+
 (* non-vacuity: a concrete history on the red-black tree, the AVL tree and a bidi-map with an overwrite *)
 Example C01_nonvacuous :
   snd (run (RB.step Z Z zcmp 0) (RB.empty Z Z)
@@ -102,3 +109,5 @@ Print Assumptions C01_spec_get_after_remove.
 Print Assumptions C01_spec_remove_absent.
 Print Assumptions C01_spec_reput_present.
 Print Assumptions C01_int_comparator_laws.
+Print Assumptions C01_comparator_shapes_laws.
+Print Assumptions C01_comparator_shapes_separate.
